@@ -174,3 +174,31 @@ func TestVerifWitness_DS5(t *testing.T) {
 		t.Fatalf("Rows(f) after the only bit of row 1 was cleared by a roaring import: before restart %v, after restart %v, want none", before.Rows, after.Rows)
 	}
 }
+
+// DS6: Store() into a field with keys was not key-translated (the row key
+// reached UintArg as a string) and executeSetRow asserted result.(bool) on
+// the nil result of the failed map-reduce: API.Query panicked (HTTP: 500 PANIC).
+func TestVerifWitness_DS6(t *testing.T) {
+	cmd := test.MustRunCommand()
+	defer cmd.Close()
+	cmd.MustCreateIndex(t, "i", pilosa.IndexOptions{Keys: true})
+	cmd.MustCreateField(t, "i", "f", pilosa.OptFieldTypeSet("ranked", 100), pilosa.OptFieldKeys())
+	var res []interface{}
+	var err error
+	func() {
+		defer func() {
+			if r := recover(); r != nil {
+				t.Fatalf(`Set("a", f="x") Store(Row(f="x"), f="y") panicked: %v`, r)
+			}
+		}()
+		var resp pilosa.QueryResponse
+		resp, err = cmd.API.Query(context.Background(), &pilosa.QueryRequest{Index: "i", Query: `Set("a", f="x") Store(Row(f="x"), f="y") Row(f="y")`})
+		res = resp.Results
+	}()
+	if err != nil {
+		t.Fatalf("Store into a keyed set field: %v", err)
+	}
+	if keys := res[2].(*pilosa.Row).Keys; len(keys) != 1 || keys[0] != "a" {
+		t.Fatalf(`Row(f="y") after Store(Row(f="x"), f="y") = %v, want [a]`, keys)
+	}
+}
